@@ -178,6 +178,15 @@ def zero_atoms(r):
     return out
 
 
+def special_atoms(r, tower):
+    """input quantities other than the tower position (or a function of it: a position reduced into the domain) that the path
+    established to be zero"""
+    def of_tower(a):
+        return a in tower or any(isinstance(x, Expr) and (tower & set(x.atoms())) for x in (a.args or ()))
+
+    return {a for a in zero_atoms(r) if not of_tower(a)}
+
+
 def views(SA, footprint, analytic, ctx="generic", **kw):
     S, rets = SA.returns(footprint, analytic, ctx=ctx, **kw)
     # a path that rests on a test the interpreter could not model (it explored both outcomes blindly) is no basis for a
@@ -191,7 +200,7 @@ def views(SA, footprint, analytic, ctx="generic", **kw):
     # special case only: the rules are evaluated on the general paths, and R-PATHS compares each special-case path with its
     # general sibling under that fact (props_solver.path_uniformity)
     tower = {atom_of(S.xm), atom_of(S.ym)}  # (the tower at the origin is a case the rules ask for themselves: shifted=False)
-    general = [r for r in rets if not (zero_atoms(r) - tower)]
+    general = [r for r in rets if not special_atoms(r, tower)]
     if general:
         rets = general
     if not rets:
